@@ -17,7 +17,7 @@ ASSUMES = ["atomize's string handling (numpy unicode arrays, np.char, pandas) is
            "listed haplotypes are pairwise distinct (as in any VCF record)"]
 BOUNDS = {"quick": "records with 0..2 ALT haplotypes over 2 SNV sites (bases from {A,C,G} / {A,C}), 2 samples (one diploid with every GT incl. '.', one fixed triploid), ACP / AFP / neither, SNVDP present or not",
           "thorough": "adds 3 ALT haplotypes, 3 sites, a second fully enumerated sample"}
-OUTSIDE = "pandas to_csv text rendering; header lines; larger records"
+OUTSIDE = "pandas to_csv text rendering; header lines; larger records (the float text of AC / ACP / DS is realised for counts k/8 up to 125)"
 TASKS_PER_CHILD = 4
 LEVEL_TEXT = ("Bounded symbolic execution where it applies, otherwise solver-driven exhaustive enumeration: atomize operates on numpy unicode arrays and pandas (C code), so each symbolic record parameter is "
               "concretised by the solver; all records inside the bound are enumerated through the solver and compared with an independent oracle. Not a proof beyond the bound.")
@@ -30,11 +30,14 @@ def configs(tier):
             for dp in (True, False):
                 for s1 in (("A", "C", "G")[: min(3, n_alt + 1)] if n_alt else ("A",)):
                     out.append(dict(n_alt=n_alt, opt=opt, dp=dp, ref0=s1, sites=2))
+    # the counts atomize prints (AC / ACP / DS) for many samples: every value k/8 in a range must read back as itself
+    for lo in range(0, 1001, 250 if tier == "quick" else 125):
+        out.append(dict(group="floats", lo=lo, hi=min(1000, lo + (250 if tier == "quick" else 125) - 1)))
     return out
 
 
 def weight(c):
-    return 4 ** c["n_alt"]
+    return 4 ** c["n_alt"] if "n_alt" in c else 20
 
 
 class _Samples(dict):
@@ -105,6 +108,43 @@ def _oracle(haps, snvpos, samples, pos):
     return lines
 
 
+def _run_floats(c, col):
+    """format_allele_floats (AC / ACP / DS text): values k/8 for k in [lo, hi] (0 .. 125, incl. every multiple of ten) rendered in
+    R- and A-length rows next to 0, 10 and a fractional value must read back as the value rounded to 3 decimals"""
+    at = E.load("mchap.application.atomize")
+    site = "mchap.application.atomize.format_allele_floats"
+
+    def body(ctx):
+        k = E.enum_int(ctx, "k", c["lo"], c["hi"])
+        v = k / 8.0
+        arr = rnp.array([[v, 0.0, 10.0], [20.0, v, 0.125]])
+        out_r = at.format_allele_floats(arr, rnp.array([2, 2]), length="R")
+        out_a = at.format_allele_floats(arr, rnp.array([2, 1]), length="A")
+        return k, arr, [str(x) for x in rnp.asarray(out_r).ravel()], [str(x) for x in rnp.asarray(out_a).ravel()]
+
+    first = True
+    for pr in E.explore(body, stats=col.stats):
+        if pr.exc is not None:
+            col.fail(site, "exception", shape=dict(group="floats"), witness=dict(exc=repr(pr.exc)), desc="raised %r" % (pr.exc,))
+            continue
+        col.path()
+        if first:
+            col.reachable(pr.ctx)
+            first = False
+        k, arr, out_r, out_a = pr.value
+        bad = None
+        for row, txt, n in ((0, out_r[0], 3), (1, out_r[1], 3), (0, out_a[0], 2), (1, out_a[1], 1)):
+            toks = txt.split(",")
+            want = [round(float(x), 3) for x in arr[row][:n]]
+            if len(toks) != n or any(t in ("", ".") or abs(float(t) - w) > 1e-9 for t, w in zip(toks, want)):
+                bad = (want, txt)
+                break
+        if bad:
+            col.fail(site, "float-text", shape=dict(group="floats"), witness=dict(values=bad[0], text=bad[1], model=dict(k=k)), desc="format_allele_floats renders %s as %r" % bad)
+        else:
+            col.ok("format_allele_floats: counts k/8 (0..125) read back as themselves in R- and A-length rows")
+
+
 def run_config(c, col):
     E.use_summaries(True)
     E.reset_modules()
@@ -113,6 +153,13 @@ def run_config(c, col):
     import warnings
 
     warnings.simplefilter("ignore")
+    if c.get("group") == "floats":
+        prof = E.Profile()
+        with prof:
+            _run_floats(c, col)
+        col.functions |= set(prof.names())
+        E.cfg.concrete_floats = False
+        return
     at = E.load("mchap.application.atomize")
     site = "mchap.application.atomize.format_vcf_snv_block"
     prof = E.Profile()
@@ -202,6 +249,10 @@ def replay(v):
     from mchap.application import atomize as rat
 
     c = v["config"]
+    if c.get("group") == "floats":
+        from checks import wiring
+
+        return wiring.replay_real(v, _run_floats)
     m = (v.get("witness") or {}).get("model") or v.get("model") or {}
 
     def pick(name, lo, hi):
